@@ -50,7 +50,7 @@ theorem C11_fm_base_inv {α} (A : Arith α) (noext : Bool) (tags : List (String 
 
 /-- …and in such a state `add_ins_fm_2op` succeeds only when the referenced instrument is of type
 FM, its image — the `base` given to `fm2opBytes`, hypothesis of `C11_fm_2op_spec` up to
-`decodeFm` — has exactly 30 bytes, and the invariant is kept.  Before fix 85bdeee a PSG
+`decodeFm` — has exactly 30 bytes, and the invariant is kept.  Before fix 45b84a6 a PSG
 envelope of 2 bytes could be the base: `fm_data[27]`, `fm_data[29]` were written past its size
 and the player read 30 bytes from it. -/
 theorem C11_fm_2op_base (st st' : State) (id : Nat) (tag : List String) (hinv : FmInv st)
